@@ -925,12 +925,7 @@ def _canonical_generic_names(facts, known_list):
             ren[pth] = c[0]
     if not ren:
         return facts
-    txt = json.dumps(facts)
-    for old_, new_ in sorted(ren.items(), key=lambda kv: -len(kv[0])):
-        o = json.dumps(old_)[1:-1]
-        n = json.dumps(new_)[1:-1]
-        txt = re.sub(re.escape(o) + r'(?=["\\:])', n.replace("\\", "\\\\"), txt)
-    facts = json.loads(txt)
+    facts = _replace_paths(facts, ren)
     facts["renamed_generics"] = ren
     return facts
 
@@ -960,6 +955,105 @@ def _in_cycle(B, bi):
         seen.add(n)
         stack.extend(_succ_raw(B["blocks"][n]))
     return False
+
+
+def _replace_paths(facts, ren):
+    txt = json.dumps(facts)
+    for old_, new_ in sorted(ren.items(), key=lambda kv: -len(kv[0])):
+        o = json.dumps(old_)[1:-1]
+        n = json.dumps(new_)[1:-1]
+        txt = re.sub(re.escape(o) + r'(?=["\\:])', n.replace("\\", "\\\\"), txt)
+    return json.loads(txt)
+
+
+def _canonical_renames(facts, ks):
+    """Pure renames are not part of a function's or a field's identity: a known function that disappeared and a new
+    function with the same parent and signature (unique on both sides) is given the known path again; likewise a field
+    of a known struct whose name disappeared while exactly one new field of the same type appeared."""
+    known = ks.get("fns", {})
+    have = {b["path"]: b for b in facts["bodies"] if b["kind"] == "fn"}
+    have_norm = {_norm_generics(p_) for p_ in have}
+    known_norm = {_norm_generics(k): k for k in known}
+
+    def key(parent, sin, sout):
+        return (_norm_generics(parent or ""), tuple(_norm_generics(x) for x in (sin or [])), _norm_generics(sout or ""))
+    missing = {}
+    for k, sg in known.items():
+        if _norm_generics(k) not in have_norm:
+            missing.setdefault(key(sg.get("parent"), sg.get("sig_in"), sg.get("sig_out")), []).append(k)
+    fresh = {}
+    for p_, b in have.items():
+        if _norm_generics(p_) not in known_norm and "::tests::" not in p_:
+            fresh.setdefault(key(b.get("parent"), b.get("sig_in"), b.get("sig_out")), []).append(p_)
+    def callees_of(b):
+        out = []
+        for bk in b["blocks"]:
+            t = bk["term"]
+            if t["k"] == "call" and "indirect" not in t["func"]:
+                out.append(t["func"].get("rpath") or t["func"]["path"])
+        return sorted(out)
+    ren = {}
+    for kx, olds in missing.items():
+        news = fresh.get(kx, [])
+        if len(olds) == 1 and len(news) == 1:
+            ren[news[0]] = olds[0]
+        elif olds and len(olds) == len(news):
+            # several functions of one shape renamed at once: pair them by what they call (ignoring each other's names)
+            gone_names = set(olds) | set(news)
+            def fp(cs):
+                return tuple(c for c in cs if c not in gone_names)
+            by_fp_old, by_fp_new = {}, {}
+            for o in olds:
+                by_fp_old.setdefault(fp(known[o].get("callees", [])), []).append(o)
+            for n_ in news:
+                by_fp_new.setdefault(fp(callees_of(have[n_])), []).append(n_)
+            for f_, os_ in by_fp_old.items():
+                ns_ = by_fp_new.get(f_, [])
+                if len(os_) == 1 and len(ns_) == 1:
+                    ren[ns_[0]] = os_[0]
+    if ren:
+        facts = _replace_paths(facts, ren)
+        for b in facts["bodies"]:
+            if b["path"] in ren.values():
+                b["name"] = b["path"].split("::")[-1]
+        facts["renamed_fns"] = ren
+    # ---- fields -----------------------------------------------------------------------------
+    fren = {}
+    for a in facts["adts"]:
+        kf = ks.get("fields", {}).get(a["path"])
+        if not kf or a.get("kind") != "struct" or not a.get("variants"):
+            continue
+        cur = [(f["name"], f["ty"]) for f in a["variants"][0]["fields"]]
+        cur_names = {n for n, _ in cur}
+        known_names = {n for n, _ in kf}
+        gone = [(n, t) for n, t in kf if n not in cur_names]
+        came = [(n, t) for n, t in cur if n not in known_names]
+        for n_old, t_old in gone:
+            cands = [n for n, t in came if _norm_generics(t) == _norm_generics(t_old)]
+            if len(cands) == 1 and sum(1 for n2, t2 in gone if _norm_generics(t2) == _norm_generics(t_old)) == 1:
+                fren[(a["path"], cands[0])] = n_old
+    if fren:
+        def walk(x):
+            if isinstance(x, dict):
+                if "f" in x and "n" in x and "of" in x and isinstance(x.get("of"), str):
+                    base = x["of"].split("<")[0]
+                    r = fren.get((base, x["n"]))
+                    if r:
+                        x["n"] = r
+                if x.get("ak") == "adt" and "fnames" in x and isinstance(x.get("adt"), str):
+                    x["fnames"] = [fren.get((x["adt"], n), n) for n in x["fnames"]]
+                for v in x.values():
+                    walk(v)
+            elif isinstance(x, list):
+                for v in x:
+                    walk(v)
+        walk(facts["bodies"])
+        for a in facts["adts"]:
+            if a.get("variants"):
+                for f in a["variants"][0]["fields"]:
+                    f["name"] = fren.get((a["path"], f["name"]), f["name"])
+        facts["renamed_fields"] = {"%s.%s" % k: v for k, v in fren.items()}
+    return facts
 
 
 def _has_loop(C):
@@ -1206,6 +1300,11 @@ class Program:
             kp = os.path.join(os.path.dirname(os.path.dirname(os.path.abspath(__file__))), "spec", "known_fns.json")
             known_list = json.load(open(kp))["fns"]
             facts = _canonical_generic_names(facts, known_list)
+            try:
+                ks = json.load(open(os.path.join(os.path.dirname(kp), "known_sigs.json")))
+                facts = _canonical_renames(facts, ks)
+            except (OSError, ValueError, KeyError):
+                pass
             known = {_norm_generics(x) for x in known_list}
             def is_new(path):
                 # generic parameter names are not part of a function's identity (moving a method between impl blocks renames them)
